@@ -127,14 +127,25 @@ func (cr *CheckRun) finishWaiters(wait func()) {
 	w.verifyPending()
 	wait()
 	woken := 0
-	for {
-		select {
-		case v := <-w.waiterDone:
-			woken += v
-			continue
-		default:
+	drain := func() {
+		for {
+			select {
+			case v := <-w.waiterDone:
+				woken += v
+				continue
+			default:
+			}
+			break
 		}
-		break
+	}
+	drain()
+	if !w.inBubble {
+		// no quiescence detection outside a bubble: give released waiters real time to report (up to 5 s), so that
+		// only a waiter that is never released counts as leaked
+		for i := 0; i < 2500 && woken < w.WaitersMade; i++ {
+			time.Sleep(2 * time.Millisecond)
+			drain()
+		}
 	}
 	cr.WaitersWoken = woken
 	cr.WaitersLeaked = w.WaitersMade - woken
